@@ -10,7 +10,7 @@ contract("Resource.__eq__", source=M + "Resource.__eq__", params={"self": "Resou
 # below(p, q): path p lies strictly inside folder path q -- q is the root (""), or p continues q after a "/"
 specdef("below", {"p": "Str", "q": "Str"}, "Bool", "q == '' or (len(p) > len(q) + 1 and p[0:len(q)] == q and p[len(q)] == '/') or (len(p) == len(q) + 1 and p[0:len(q)] == q and p[len(q)] == '/')")
 contract("Folder.contains", source=M + "Folder.contains", params={"self": "Folder", "resource": "Resource"}, returns="Bool", modifies=[], raises={},
-         ensures=["implies(result, below(resource._path, self._path))",
+         ensures=["implies(result, below(resource._path, self._path))", "implies(result, len(self._path) <= len(resource._path))",
                   "implies(below(resource._path, self._path) and not (class_of(self) == class_of(resource) and self._path == resource._path), result)",
                   # never itself, and never something whose path merely starts with the same characters (pkg vs pkg2/mod.py)
                   "implies(class_of(self) == class_of(resource) and self._path == resource._path, not result)"],
